@@ -432,7 +432,9 @@ fn run_partition_via(spec: &Spec, cuts: &[usize], mode: u8) -> Option<Violation>
                     if k != w[1] - w[0] {
                         return Err(format!("write consumed {} of {} bytes", k, w[1] - w[0]));
                     }
-                    s.flush().map_err(|e| format!("flush: {}", e))?;
+                    // (what a flush in the middle of an entry reports is not in the statement; it must
+                    // not disturb the writes that follow)
+                    let _ = s.flush();
                 }
             }
             1 => {
